@@ -501,14 +501,29 @@ func reflectValueIntrinsics() map[string]intrinsic {
 		},
 		"(reflect.Value).Index": func(it *Interp, fn *ssa.Function, args []Value) Value {
 			rv := it.reflVal(args[0], "Index")
-			i := int(it.concInt(args[1], types.Typ[types.Int]))
+			n := 0
+			switch x := rv.cur().Ref.(type) {
+			case Slice:
+				n = x.n
+			case *Agg:
+				n = len(x.v)
+			case *Str:
+				n = x.Len()
+			}
+			i, inRange := -1, false
+			if n > 0 {
+				i, inRange = it.reflBound(args[1], n-1)
+			}
+			if !inRange {
+				i = -1
+			}
 			switch u := rv.t.Underlying().(type) {
 			case *types.Slice:
 				s, _ := rv.cur().Ref.(Slice)
 				if i < 0 || i >= s.n {
 					it.goPanicValue(mkStrIface(it, "reflect: slice index out of range"))
 				}
-				return Value{Ref: &ReflVal{t: u.Elem(), v: s.c[i].load()}}
+				return Value{Ref: &ReflVal{t: u.Elem(), addr: s.c[i]}}
 			case *types.Array:
 				a := rv.cur().Ref.(*Agg)
 				if i < 0 || i >= len(a.v) {
